@@ -1,6 +1,6 @@
 """debug helper: python3 -i tools/dbg.py Cxx  -> `facts`, `mod`, and everything of rules.lib.match in scope"""
 import sys, os, importlib
-sys.path.insert(0, os.path.dirname(os.path.dirname(os.path.abspath(__file__))))
+sys.path.insert(0, "/verif")
 from rules.lib import facts as F
 from rules.lib.match import *
 
